@@ -8,6 +8,7 @@ import DaskModel.Model.SliceND
 import DaskModel.Model.SetItemND
 import DaskModel.Model.NormIndex
 import DaskModel.Model.VIndex
+import DaskModel.Model.ArrayCache
 open Dask
 open Dask.Slice1D
 open Dask.SetItem
@@ -420,7 +421,38 @@ def hVIndexPlan : Handler := handler fun args =>
           .list [SExp.ofNats g.1, .list (g.2.map fun q => .list [SExp.ofNat q.pos, SExp.ofNat q.outidx, SExp.ofInts q.inblock])])])
   | _ => none
 
+def toCacheOp? (e : SExp) : Option Dask.ArrayCache.Op :=
+  match e with
+  | .list [.sym "r", .sym "numblocks"] => some .rNumblocks
+  | .list [.sym "r", .sym "npartitions"] => some .rNpartitions
+  | .list [.sym "r", .sym "shape"] => some .rShape
+  | .list [.sym "r", .sym "ndim"] => some .rNdim
+  | .list [.sym "r", .sym "size"] => some .rSize
+  | .list [.sym "r", .sym "keys"] => some .rKeys
+  | .list [.sym "r", .sym "keyarray"] => some .rKeyArray
+  | .list [.sym "wname", n] => do pure (.wName (← n.toNat?))
+  | .list [.sym "wchunks", c] => do pure (.wChunks (← c.toNatss?))
+  | .list [.sym "assign", n, c] => do pure (.assign (← n.toNat?) (← c.toNatss?))
+  | .list [.sym "out", n, c] => do pure (.out (← n.toNat?) (← c.toNatss?))
+  | _ => none
+
+/-- `(arraycache name ((c…)…) (op…))` ↦ per op `(answer filled)`: answer = `none` | `(name-or-none (values…))`,
+    filled = which of _cached_keys, _key_array, numblocks, npartitions, shape, ndim, size are cached afterwards -/
+def hArrayCache : Handler := handler fun args =>
+  match args with
+  | [n, c, ops] => do
+    let n ← n.toNat?
+    let c ← c.toNatss?
+    let ops ← (← ops.toList?).mapM toCacheOp?
+    pure (.list ((Dask.ArrayCache.run (Dask.ArrayCache.constructed n c) ops).map fun r =>
+      .list [match r.1 with
+             | none => .sym "none"
+             | some (nm, vs) => .list [match nm with | none => .sym "none" | some k => SExp.ofNat k, SExp.ofNats vs],
+             .list (r.2.map SExp.ofBool)]))
+  | _ => none
+
 def table : List (String × Handler) := [
+  ("arraycache", hArrayCache),
   ("vindexplan", hVIndexPlan),
   ("normindex", hNormIndex),
   ("setitemplan", hSetItemPlan),
